@@ -163,7 +163,7 @@ def prune_old(keep):
             return os.path.getmtime(p)
         except OSError:      # removed by a check running in parallel
             return 0.0
-    ds = sorted((os.path.join(BUILD, x) for x in os.listdir(BUILD)), key=mtime, reverse=True)
+    ds = sorted((os.path.join(BUILD, x) for x in os.listdir(BUILD) if not x.startswith(".lock-")), key=mtime, reverse=True)
     now = time.time()
     for old in ds[keep:]:
         # another check (a scratch run against a changed tree, say) may still be using a directory it built a while ago
@@ -183,6 +183,13 @@ def build(harness_c, flavor="asan", images=(("s", "server"), ("ca", "client")), 
         os.utime(d)
         return exe
     os.makedirs(d, exist_ok=True)
+    # checks may run in parallel and share an object directory: one builder at a time per directory
+    import fcntl
+    lock = open(os.path.join(BUILD, ".lock-" + os.path.basename(d)), "w")
+    fcntl.flock(lock, fcntl.LOCK_EX)
+    if os.path.exists(exe):
+        os.utime(d)
+        return exe
     stamp = os.path.join(d, ".objs-done")
     if not os.path.exists(stamp):
         compile_objs(d, flavor)
